@@ -179,6 +179,9 @@ func (ms *Modules) add(n Node) error {
 		return fmt.Errorf("duplicate %s %s at %s and %s", kind, fullName, Source(o), Source(n))
 	}
 	m[fullName] = mod
+	if verifEnabled {
+		verifEmit("modules.add", "kind", kind, "full", fullName, "at", Source(n))
+	}
 	if fullName == name {
 		return nil
 	}
